@@ -122,7 +122,7 @@ def _exo_values(parser):
     return out
 
 
-def compare_systems(pa, pb, params, mapb=None, restrict=None, timeout_ms=60000):
+def compare_systems(pa, pb, params, mapb=None, restrict=None, timeout_ms=60000, drop_b=()):
     """Equivalence of two systems given as real-parser views.  mapb maps B's variable names to A's (renaming /
     prefixing).  restrict: optional predicate on A-names selecting the sub-economy compared.
     Returns (obs, D): obs = list of dict(kind, what, verdict, [cex]) - structural mismatches are verdict 'sat'."""
@@ -139,8 +139,11 @@ def compare_systems(pa, pb, params, mapb=None, restrict=None, timeout_ms=60000):
     B_exo = {mapb(v): x for v, x in _exo_values(pb).items() if v != 'k'}
     A_ic = {v: float(x) for v, x in pa.InitialConditions.items() if keep(v)}
     B_ic = {mapb(v): float(x) for v, x in pb.InitialConditions.items()}
-    if restrict is not None:
-        B_endo = {v: e for v, e in B_endo.items()}
+    if drop_b:
+        B_endo = {v: e for v, e in B_endo.items() if v not in drop_b}
+        B_lag = {v: e for v, e in B_lag.items() if v not in drop_b}
+        B_exo = {v: e for v, e in B_exo.items() if v not in drop_b}
+        B_ic = {v: e for v, e in B_ic.items() if v not in drop_b}
     for kind, a, b in (('variables', set(A_endo), set(B_endo)), ('lagged', A_lag, B_lag), ('exogenous', A_exo, B_exo),
                        ('initial-conditions', A_ic, B_ic)):
         if a != b:
